@@ -5,6 +5,7 @@ package main
 import (
 	"context"
 	"fmt"
+	"net/http"
 	"os"
 	"sort"
 	"strings"
@@ -38,11 +39,24 @@ func canonMember(m baggage.Member) cMember {
 	return c
 }
 
+// accessorProblem is set when Baggage.Member / Len disagree with Members() (reported by main as a direct violation).
+var accessorProblem string
+
 // canon: members sorted by key (the order of a Go map is not an observable).
+// Every call also reads the baggage through its other accessors (Len, Member(key)).
 func canon(b baggage.Baggage) []cMember {
 	ms := b.Members()
 	out := make([]cMember, 0, len(ms))
+	if b.Len() != len(ms) {
+		accessorProblem = fmt.Sprintf("Len() = %d but Members() has %d entries", b.Len(), len(ms))
+	}
+	if z := b.Member("\x00 no such key"); z.Key() != "" || z.Value() != "" || len(z.Properties()) != 0 {
+		accessorProblem = "Member(absent key) is not the zero Member"
+	}
 	for _, m := range ms {
+		if got := canonMember(b.Member(m.Key())); fmt.Sprintf("%q", got) != fmt.Sprintf("%q", canonMember(m)) {
+			accessorProblem = fmt.Sprintf("Member(%q) = %q but Members() holds %q", m.Key(), got, canonMember(m))
+		}
 		out = append(out, canonMember(m))
 	}
 	sort.Slice(out, func(i, j int) bool { return out[i].K < out[j].K })
@@ -70,6 +84,39 @@ func membersCoq(ms []cMember) string {
 		items = append(items, memberCoq(m))
 	}
 	return vgen.List(items)
+}
+
+// shared renders App(ctor, args...) with equal large member-list arguments bound once by a let
+// (the literal is parsed and type-checked once).
+func shared(ctor string, args []string) string {
+	best := ""
+	for i, a := range args {
+		if len(a) < 400 || !strings.HasPrefix(a, "[(") {
+			continue
+		}
+		for j := i + 1; j < len(args); j++ {
+			if args[j] == a || args[j] == vgen.Some(a) {
+				if len(a) > len(best) {
+					best = a
+				}
+			}
+		}
+	}
+	if best == "" {
+		return vgen.App(ctor, args...)
+	}
+	out := make([]string, len(args))
+	for i, a := range args {
+		switch a {
+		case best:
+			out[i] = "m_"
+		case vgen.Some(best):
+			out[i] = "(Some m_)"
+		default:
+			out[i] = a
+		}
+	}
+	return "(let m_ : list (bytes * bytes * list (bytes * option bytes)) := " + best + " in " + vgen.App(ctor, out...) + ")"
 }
 
 func optMembersCoq(ms []cMember, ok bool) string {
@@ -348,7 +395,7 @@ func q(s string) string { return fmt.Sprintf("%q", s) }
 func main() {
 	o := vgen.ParseFlags()
 	r := vgen.NewRand(o.Seed)
-	w := vgen.NewWriter(o.Out, "C11.Model C11.Spec C11.Corr", "case", 200)
+	w := vgen.NewWriter(o.Out, "C11.Model C11.Spec C11.Corr", "case", 280)
 	w.Rule = "grammar-based, mutated and random baggage headers (optional and Unicode white space, escapes in both cases, invalid UTF-8, duplicate keys, empty pieces, limits 180/4096/8192 +-1); " +
 		"member sets over an alphabet with every delimiter, '%', blanks, quotes, controls, 2/3/4-byte and non-BMP characters through NewMemberRaw/New/String/Parse/Inject/Extract; SetMember/DeleteMember scripts with re-reads of every earlier version; " +
 		"a case is non-trivial when the implementation accepted the header / built a non-empty baggage / applied at least one edit, or rejected a mutated input; distinct = distinct Coq case terms"
@@ -358,8 +405,38 @@ func main() {
 			if e := recover(); e != nil {
 				w.Violation(fmt.Sprintf("panic: %v", e), desc)
 			}
+			if accessorProblem != "" {
+				w.Violation("accessors disagree: "+accessorProblem, desc)
+				accessorProblem = ""
+			}
 		}()
 		f()
+	}
+	// the same operation through every public entry point: the propagator alone or inside a composite,
+	// a map carrier or an http.Header carrier
+	composite := propagation.NewCompositeTextMapPropagator(propagation.TraceContext{}, propagation.Baggage{})
+	pickProp := func() propagation.TextMapPropagator {
+		if r.Bool() {
+			return composite
+		}
+		return prop
+	}
+	newCarrier := func(hdr *string) propagation.TextMapCarrier {
+		if r.Bool() {
+			h := http.Header{}
+			if hdr != nil {
+				h.Set("baggage", *hdr)
+			}
+			return propagation.HeaderCarrier(h)
+		}
+		c := propagation.MapCarrier{}
+		if hdr != nil {
+			c["baggage"] = *hdr
+		}
+		return c
+	}
+	if f := prop.Fields(); len(f) != 1 || f[0] != "baggage" {
+		w.Violation(fmt.Sprintf("Baggage.Fields() = %q", f), map[string]any{"op": "fields"})
 	}
 
 	addParse := func(s, kind string) {
@@ -385,7 +462,11 @@ func main() {
 				}
 				desc["string_len"] = len(str)
 				desc["reparse_ok"] = reOK
-				for _, p := range strings.Split(s, ",") {
+				ps := strings.Split(s, ",")
+				if len(s) > 1500 && len(ps) <= 3 {
+					ps = nil // large input with few list-members: the per-piece observation is skipped
+				}
+				for _, p := range ps {
 					pb, perr := baggage.Parse(p)
 					if perr == nil && pb.Len() == 1 {
 						per = append(per, vgen.Some(memberCoq(canon(pb)[0])))
@@ -396,19 +477,19 @@ func main() {
 			}
 			// the propagator
 			parent := context.Background()
-			carrier := propagation.MapCarrier{}
+			var hp *string
 			if s != "" {
-				carrier["baggage"] = s
+				hp = &s
 			}
-			ctx := prop.Extract(parent, carrier)
+			ctx := pickProp().Extract(parent, newCarrier(hp))
 			if ctx != parent {
 				ext = 2
 				if ok && fmt.Sprint(canon(baggage.FromContext(ctx))) == fmt.Sprint(ms) {
 					ext = 1
 				}
 			}
-			term := vgen.App("CParse", vgen.HxS(s), optMembersCoq(ms, ok), piecesCoq(pieces),
-				optMembersCoq(re, reOK), vgen.List(per), vgen.N(uint64(ext)))
+			term := shared("CParse", []string{vgen.HxS(s), optMembersCoq(ms, ok), piecesCoq(pieces),
+				optMembersCoq(re, reOK), vgen.List(per), vgen.N(uint64(ext))})
 			if ok {
 				w.Tally(fmt.Sprintf("parse:ok:members<=%d", bucket(len(ms))))
 				if !reOK {
@@ -454,16 +535,16 @@ func main() {
 				}
 				desc["reparse_ok"] = reOK
 				parent := context.Background()
-				carrier := propagation.MapCarrier{}
-				prop.Inject(baggage.ContextWithBaggage(parent, b), carrier)
-				ctx := prop.Extract(parent, carrier)
+				carrier := newCarrier(nil)
+				pickProp().Inject(baggage.ContextWithBaggage(parent, b), carrier)
+				ctx := pickProp().Extract(parent, carrier)
 				if ctx != parent {
 					extOK = true
 					ext = canon(baggage.FromContext(ctx))
 				}
 			}
-			term := vgen.App("CRound", membersCoq(ms), vgen.List(acc), optMembersCoq(nb, ok), piecesCoq(pieces),
-				optMembersCoq(re, reOK), optMembersCoq(ext, extOK))
+			term := shared("CRound", []string{membersCoq(ms), vgen.List(acc), optMembersCoq(nb, ok), piecesCoq(pieces),
+				optMembersCoq(re, reOK), optMembersCoq(ext, extOK)})
 			w.Tally(fmt.Sprintf("new:ok=%v:members<=%d", ok, bucket(len(nb))))
 			w.Add(term, desc, kind, ok && len(nb) > 0)
 		})
@@ -485,6 +566,15 @@ func main() {
 	addParse("a=b=c==", "parse-corpus")
 	addParse("a= b c ", "parse-corpus")
 	addParse("a=%EF%BF%BD", "parse-corpus")
+	for _, h := range []string{"a=1; ", "a=1;\t", "a=1;p =", "a=1;p= ", "a=1;p=v x", "a=1;p x", "a=1;=v", "a=1;p==", "a=1;\xc3\xa9", "a=1;p=\xc3\xa9",
+		"a=1;p;q;p", "a=1 ;p", "=1", " =1", "a", "a;p", ";a=1", "a=1;p=%41%zz", "a=1;p=%4", "a=\"q\"", "a=\\", "a=b c", "\xc2\xa0=1", "a=\xc2\xa0"} {
+		addParse(h, "parse-corpus")
+	}
+	// valueEscape switches from its 64-byte stack buffer to the heap at required = len + 2*escapes > 64
+	for _, n := range []int{3, 4, 5} {
+		addRound([]cMember{{K: "k", V: strings.Repeat("\"", 20) + fill(n)}}, "round-corpus")
+		addRound([]cMember{{K: "k", V: "v", Props: []cProp{{K: "p", V: strings.Repeat(" ", 21) + fill(n-3), HasVal: true}}}}, "round-corpus")
+	}
 	addRound(nil, "round-corpus")
 	addRound([]cMember{{K: "é", V: "v"}, {K: "a", V: "w", Props: []cProp{{K: "ключ", V: "x", HasVal: true}}}}, "round-corpus")
 
@@ -531,7 +621,7 @@ func main() {
 	addParse("a="+strings.Repeat("%FF", 454)+",b="+strings.Repeat("%FE", 454)+",c="+fill(6), "parse-growth")
 
 	// ---- generated headers ----
-	nParse := o.Count(1100, 25000)
+	nParse := o.Count(800, 25000)
 	for i := 0; i < nParse; i++ {
 		h := genHeader(r)
 		kind := "parse-grammar"
@@ -551,7 +641,7 @@ func main() {
 	}
 
 	// ---- member sets through the constructors ----
-	nRound := o.Count(700, 15000)
+	nRound := o.Count(450, 15000)
 	for i := 0; i < nRound; i++ {
 		n := r.Intn(5) + 1
 		if r.Chance(1, 40) {
@@ -565,7 +655,7 @@ func main() {
 	}
 
 	// ---- edit scripts ----
-	nEdit := o.Count(300, 6000)
+	nEdit := o.Count(200, 6000)
 	for i := 0; i < nEdit; i++ {
 		var hs []string
 		perm := append([]string(nil), keyPool...)
@@ -626,6 +716,12 @@ func main() {
 			}
 			var reread []string
 			for _, c := range ctxs {
+				before := fmt.Sprint(canon(baggage.FromContext(c)))
+				if without := baggage.ContextWithoutBaggage(c); baggage.FromContext(without).Len() != 0 {
+					w.Violation("ContextWithoutBaggage: the returned context still carries baggage", desc)
+				} else if fmt.Sprint(canon(baggage.FromContext(c))) != before {
+					w.Violation("ContextWithoutBaggage altered the baggage of its parent context", desc)
+				}
 				reread = append(reread, membersCoq(canon(baggage.FromContext(c))))
 			}
 			desc["ops"] = opsDesc
@@ -673,7 +769,7 @@ func main() {
 				w.Violation("Extract altered the baggage of the parent context", desc)
 			}
 			w.Tally(fmt.Sprintf("extract-into:parent<=%d:parsed=%v", bucket(pb.Len()), poOK))
-			w.Add(vgen.App("CExtractInto", membersCoq(canon(pb)), hdrCoq, optMembersCoq(po, poOK), membersCoq(res), vgen.Bool(ctx == parent)),
+			w.Add(shared("CExtractInto", []string{membersCoq(canon(pb)), hdrCoq, optMembersCoq(po, poOK), membersCoq(res), vgen.Bool(ctx == parent)}),
 				desc, kind, poOK)
 		})
 	}
@@ -699,7 +795,7 @@ func main() {
 				addExtractInto(pb, h, "extract-into-corpus")
 			}
 		}
-		nExt := o.Count(120, 3000)
+		nExt := o.Count(70, 3000)
 		for i := 0; i < nExt; i++ {
 			pb := mkParent(vgen.Pick(r, []int{0, 1, 2, 3, 5, 179, 180}), vgen.Pick(r, []string{"k", "a", "user"}))
 			h := genHeader(r)
@@ -713,8 +809,143 @@ func main() {
 		}
 	}
 
+	// ---- New with zero Members; NewMember with properties; Inject into a re-used carrier ----
+	nZero := o.Count(60, 1500)
+	for i := 0; i < nZero; i++ {
+		var ms []cMember
+		for j, n := 0, r.Intn(4)+1; j < n; j++ {
+			m := genMember(r)
+			if r.Chance(1, 3) {
+				m.K = vgen.Pick(r, []string{"", "k\xff", "a"})
+			}
+			ms = append(ms, m)
+		}
+		desc := map[string]any{"op": "new-zero", "members": fmt.Sprintf("%q", ms)}
+		guard(desc, func() {
+			var acc []string
+			var all []baggage.Member
+			for _, m := range ms {
+				bm, ok := mkMember(m) // the zero Member when rejected
+				acc = append(acc, vgen.Bool(ok))
+				all = append(all, bm)
+			}
+			_, err := baggage.New(all...)
+			w.Tally(fmt.Sprintf("new-zero:ok=%v", err == nil))
+			w.Add(vgen.App("CNewZero", membersCoq(ms), vgen.List(acc), vgen.Bool(err == nil)), desc, "new-zero", err != nil)
+		})
+	}
+	nCP := o.Count(60, 1500)
+	for i := 0; i < nCP; i++ {
+		k := genKey(r)
+		v := pct(genValue(r), r.Chance(1, 6), r.Chance(1, 4))
+		if r.Chance(1, 6) {
+			v += vgen.Pick(r, []string{"%FF", "%zz", "%", " ", "é"})
+		}
+		ps := genProps(r)
+		props, ok := mkProps(ps)
+		if !ok {
+			continue
+		}
+		desc := map[string]any{"op": "ctor-props", "key": q(k), "value": q(v), "props": fmt.Sprintf("%q", ps)}
+		guard(desc, func() {
+			om := vgen.None
+			m, err := baggage.NewMember(k, v, props...)
+			junk, _ := baggage.NewKeyProperty("scribbled")
+			for j := range props {
+				props[j] = junk
+			}
+			if err == nil {
+				om = vgen.Some(memberCoq(canonMember(m)))
+			}
+			var pc []string
+			for _, p := range ps {
+				pc = append(pc, propCoq(p))
+			}
+			w.Tally(fmt.Sprintf("ctor-props:ok=%v", err == nil))
+			w.Add(vgen.App("CCtorProps", vgen.HxS(k), vgen.HxS(v), vgen.List(pc), om), desc, "ctor-props", err == nil)
+		})
+	}
+	nInj := o.Count(80, 2000)
+	for i := 0; i < nInj; i++ {
+		h := genHeader(r)
+		switch r.Intn(8) {
+		case 0:
+			h = ""
+		case 1:
+			h = "k=" + strings.Repeat("%FF", 460) // re-serialises beyond the member limit
+		}
+		b, err := baggage.Parse(h)
+		if err != nil {
+			continue
+		}
+		var old *string
+		oldCoq := vgen.None
+		if r.Chance(2, 3) {
+			o := vgen.Pick(r, []string{"old=1", "a=stale,b=stale", "k=" + fill(30), "not a header"})
+			old, oldCoq = &o, vgen.Some(vgen.HxS(o))
+		}
+		desc := map[string]any{"op": "inject-reuse", "baggage": q(h), "carrier_before": fmt.Sprint(old != nil)}
+		guard(desc, func() {
+			carrier := newCarrier(old)
+			pickProp().Inject(baggage.ContextWithBaggage(context.Background(), b), carrier)
+			after := vgen.None
+			if v := carrier.Get("baggage"); v != "" {
+				var ps []string
+				for _, p := range strings.Split(v, ",") {
+					ps = append(ps, vgen.HxS(p))
+				}
+				after = vgen.Some(vgen.List(ps))
+			}
+			parent := context.Background()
+			ctx := pickProp().Extract(parent, carrier)
+			var ext []cMember
+			extOK := ctx != parent
+			if extOK {
+				ext = canon(baggage.FromContext(ctx))
+			}
+			w.Tally(fmt.Sprintf("inject-reuse:members<=%d", bucket(b.Len())))
+			w.Add(vgen.App("CInject", vgen.HxS(h), membersCoq(canon(b)), oldCoq, after, optMembersCoq(ext, extOK)), desc, "inject-reuse", b.Len() > 0)
+		})
+	}
+	// editing at the member limit: SetMember has no limit of its own
+	{
+		var hs []string
+		for i := 0; i < 180; i++ {
+			hs = append(hs, fmt.Sprintf("k%d=%d", i, i%7))
+		}
+		start := strings.Join(hs, ",")
+		desc := map[string]any{"op": "edit", "start": "180 members"}
+		guard(desc, func() {
+			b, err := baggage.Parse(start)
+			if err != nil {
+				return
+			}
+			b0 := canon(b)
+			var ops, obs, reread []string
+			vers := []baggage.Baggage{b}
+			step := func(nb baggage.Baggage, berr error, op string) {
+				obs = append(obs, "("+vgen.Bool(berr != nil)+", "+membersCoq(canon(nb))+", "+membersCoq(canon(b))+")")
+				ops = append(ops, op)
+				b = nb
+				vers = append(vers, b)
+			}
+			m1, _ := baggage.NewMemberRaw("extra", "181st")
+			nb, e := b.SetMember(m1)
+			step(nb, e, vgen.App("OSet", vgen.HxS("extra"), vgen.HxS("181st"), "[]"))
+			step(b.DeleteMember("k0"), nil, vgen.App("ODel", vgen.HxS("k0")))
+			m2, _ := baggage.NewMemberRaw("k5", "again")
+			nb, e = b.SetMember(m2)
+			step(nb, e, vgen.App("OSet", vgen.HxS("k5"), vgen.HxS("again"), "[]"))
+			for _, v := range vers {
+				reread = append(reread, membersCoq(canon(v)))
+			}
+			w.Tally("edit:at-limit")
+			w.Add(vgen.App("CEdit", vgen.HxS(start), membersCoq(b0), vgen.List(ops), vgen.List(obs), vgen.List(reread)), desc, "edit-corpus", true)
+		})
+	}
+
 	// ---- percent-encoded constructors ----
-	nCtor := o.Count(250, 5000)
+	nCtor := o.Count(150, 5000)
 	for i := 0; i < nCtor; i++ {
 		k := genKey(r)
 		v := pct(genValue(r), r.Chance(1, 6), r.Chance(1, 4))
